@@ -144,10 +144,13 @@ def limit_family():
     for base in (180, 181, 182):
         # n NOPs then 0 <20 keys> 20 CHECKMULTISIG: op count base + 1 + 20
         out.append((b"\x61" * base + b"\x00\x00" + pk * 20 + b"\x01\x14\xae", [], ()))
-    for ln in (520, 521):
-        push = b"\x4d" + ln.to_bytes(2, "little") + bytes(ln)
-        out.append((push, [], ()))
-        out.append((b"\x00\x63" + push + b"\x68\x51", [], ()))   # unexecuted branch
+    for ln in (520, 521, 600):
+        for push in (b"\x4d" + ln.to_bytes(2, "little") + bytes(ln), b"\x4e" + ln.to_bytes(4, "little") + bytes(ln)):   # both wide push forms
+            out.append((push, [], ()))
+            out.append((b"\x00\x63" + push + b"\x68\x51", [], ()))   # unexecuted branch
+    for ln in (75, 76, 255):
+        for push in (b"\x4c" + bytes([ln]) + bytes(ln), b"\x4d" + ln.to_bytes(2, "little") + b"\x01" * ln, b"\x4e" + ln.to_bytes(4, "little") + b"\x01" * ln):
+            out.append((push + b"\x82", [], ()))            # SIZE of what was pushed
     out.append((b"\x61" * 201 + b"\x00" * 9799, [], ()))       # 10,000 bytes
     out.append((b"\x00" * 999 + b"\x75" * 200 + b"\x00" * 8802, [], ()))   # 10,001 bytes
     dis = [0x7e, 0x7f, 0x80, 0x81, 0x83, 0x84, 0x85, 0x86, 0x8d, 0x8e, 0x95, 0x96, 0x97, 0x98, 0x99]
@@ -321,6 +324,12 @@ def sig_programs(r, n):
             msb = CScript([2, b"\x02" + bytes(31), k.pub, 2, OP_CHECKMULTISIG])
             sb = k.sign(SignatureHash(msb, tx, idx, ht)) + bytes([ht])
             out.append((bytes(CScript([0, sb, sb])), bytes(msb), (), d, idx))
+        if len(d["vin"]) >= 2:      # two checks in one script under different hash types (the first must leave nothing behind)
+            tail2 = CScript([k.pub, OP_CHECKSIGVERIFY, k.pub, OP_CHECKSIG])
+            for h1, h2 in ((2, 1), (3, 1), (0x82, 1), (1, 3), (2, 0x81)):
+                sa_ = k.sign(SignatureHash(tail2, tx, idx, h1)) + bytes([h1])
+                sb_ = k.sign(SignatureHash(tail2, tx, idx, h2)) + bytes([h2])
+                out.append((bytes(CScript([sb_, sa_])), bytes(tail2), (), d, idx))
         if kind == 4:              # P2SH 2-of-2
             k2 = ks[(i + 1) % 3]
             redeem = CScript([2, k.pub, k2.pub, 2, OP_CHECKMULTISIG])
@@ -403,8 +412,10 @@ def drive(tier):
             for fl in FLAGSETS:
                 T.verify(sig, pk, tuple(fl))
     # 6. real signatures (ECDSA evaluated by the spec on secp256k1)
-    for sig, pk, fl, d, idx in sig_programs(r, 5 if tier == "quick" else 200):
-        T.verify(sig, pk, fl, txd=d, idx=idx)
+    for n_, (sig, pk, fl, d, idx) in enumerate(sig_programs(r, 5 if tier == "quick" else 200)):
+        T.verify(sig, pk, fl, txd=d, idx=idx, mutable=bool(n_ & 1))
+        if len(d["vin"]) >= 2 and n_ % 3 == 0:
+            T.verify(sig, pk, fl, txd=d, idx=idx, mutable=not (n_ & 1))
     return R.recs
 
 
